@@ -48,7 +48,11 @@ META = {
              "List(Int) nested, Dict(Str,Int) nested, Set(Int) nested} x bounds {(0,inf),(1,3),(2,2),"
              "(0,0),(0,2)}, Dict(K,V) incl. Dict(Str,List(Int)), Set(T); every mutator of the three "
              "container classes, in-place operators through the attribute, whole-value assignment, "
-             "mutation of nested containers and of stale former values; a separate stratum draws the set "
+             "mutation of nested containers and of stale former values, and whole-value assignment through "
+             "the constructor `Cls(xs=v)`; the owning class comes in four flavours, rotated over the "
+             "histories and grid cases: plain, `__len__` = size of its container (owner falsy while empty, "
+             "incl. during construction), `__bool__` False until a flag is flipped at random points, and "
+             "value-based `__eq__`/`__hash__` with a second, equal owner kept around; a separate stratum draws the set "
              "intersection operators with operands equal to, but not identical with, members (it hits "
              "an open finding and would otherwise truncate the main histories). A case is non-trivial when the "
              "operation changed the value, raised, or delivered a notification; distinct_nontrivial "
@@ -62,7 +66,14 @@ META = {
                   "notif_observe_nested": 8000, "notif_raw": 25000, "notif_anytrait": 25000,
                   "elements_walked": 250000, "nested_ops": 5000, "stale_ops": 3000, "assign_ops": 8000,
                   "list_ops": 45000, "dict_ops": 15000, "set_ops": 12000,
-                  "convertible_items_stored": 4000, "grid_cases": 7000, "isect_twin_ops": 30},
+                  "convertible_items_stored": 4000, "grid_cases": 7000, "isect_twin_ops": 30,
+                  # owner-class flavours (falsy / truthy / value-equal owners) and the constructor route
+                  "flavour_len_ops": 20000, "flavour_bool_ops": 20000, "flavour_eq_ops": 20000,
+                  "falsy_owner_ops": 15000, "falsy_len_owner_ops": 6000, "falsy_bool_owner_ops": 10000,
+                  "falsy_list_ops": 9000, "falsy_dict_ops": 4000, "falsy_set_ops": 2500,
+                  "falsy_owner_rejections": 5000, "truthy_flavoured_ops": 24000,
+                  "equal_owner_ops": 10000, "equal_owner_foreign_args": 250, "construct_ops": 2500,
+                  "construct_rejections": 900, "falsy_construct_ops": 1300, "built_with_keyword": 4500},
         "thorough": {"evaluations": 2000000, "rejections_checked": 600000, "direction_checked": 500000,
                      "length_direction_checked": 150000, "ops_succeeded": 1000000,
                      "notifications_seen": 3000000, "notif_static": 600000, "notif_otc": 600000,
@@ -70,12 +81,22 @@ META = {
                      "notif_anytrait": 600000, "elements_walked": 5000000, "nested_ops": 120000,
                      "stale_ops": 70000, "assign_ops": 150000, "list_ops": 1000000, "dict_ops": 400000,
                      "set_ops": 250000, "convertible_items_stored": 80000, "grid_cases": 7000,
-                     "isect_twin_ops": 600},
+                     "isect_twin_ops": 600,
+                     "flavour_len_ops": 400000, "flavour_bool_ops": 400000, "flavour_eq_ops": 400000,
+                     "falsy_owner_ops": 300000, "falsy_len_owner_ops": 120000,
+                     "falsy_bool_owner_ops": 200000, "falsy_list_ops": 180000, "falsy_dict_ops": 80000,
+                     "falsy_set_ops": 50000, "falsy_owner_rejections": 100000,
+                     "truthy_flavoured_ops": 480000, "equal_owner_ops": 200000,
+                     "equal_owner_foreign_args": 5000, "construct_ops": 50000,
+                     "construct_rejections": 18000, "falsy_construct_ops": 26000,
+                     "built_with_keyword": 40000},
     },
     "exhaustive_parts": ("list grid: every list mutator x every length in minlen..min(maxlen,4) x "
                          "argument lists of 0..3 items with an invalid item at each position, for every "
                          "List configuration (values are drawn, shapes are enumerated)"),
     "assumptions": [
+        "the property does not depend on the owner: a container validates for its owner whatever the "
+        "owner's truth value, equality or hash (the statement quantifies over all List/Dict/Set traits)",
         "reference predicates follow the documentation: Int/Range(int) accept exact ints and objects "
         "with __index__ (bool included) and store an exact int; Float accepts floats, ints and objects "
         "with __float__ and stores an exact float; Str accepts str only; CInt casts with int(); "
@@ -368,6 +389,7 @@ def in_domain(spec, e, owner=None):
         return False
 
 
+TRAIT_CONTAINERS = (TraitListObject, TraitDictObject, TraitSetObject)
 CLASS_OF = {"List": TraitListObject, "Dict": TraitDictObject, "Set": TraitSetObject}
 KIND_OF = {"List": "list", "Dict": "dict", "Set": "set"}
 _CT = {}
@@ -1091,7 +1113,20 @@ LOG = []
 HANDLER_EXC = []
 
 
-def make_class(trait):
+FLAVOURS = ("plain", "len", "bool", "eq")
+READY = "_c04_ready"
+
+
+def make_class(trait, flavour="plain"):
+    """The owner class.  Flavours (nothing in the property depends on them --
+    a container validates for its owner whatever the owner's truth value,
+    equality or hash):
+    len  : collection-like model, `len(owner)` is the size of its container, so
+           the owner is FALSY while the container is empty (incl. during
+           `Cls(xs=...)`);
+    bool : `bool(owner)` is False until a flag is set (never during construction);
+    eq   : value-based `__eq__` / `__hash__`: two owners holding equal containers
+           are equal (and always hash-equal) without being the same object."""
     class H(HasTraits):
         xs = trait
 
@@ -1103,6 +1138,24 @@ def make_class(trait):
 
         def _anytrait_changed(self, name, old, new):
             LOG.append("anytrait:" + name)
+
+        if flavour == "len":
+            def __len__(self):
+                return len(self.__dict__.get(NAME, ()))
+        elif flavour == "bool":
+            def __bool__(self):
+                return self.__dict__.get(READY, False)
+        elif flavour == "eq":
+            def __eq__(self, other):
+                return (type(other) is type(self)
+                        and self.__dict__.get(NAME) == other.__dict__.get(NAME))
+
+            def __ne__(self, other):
+                return not self.__eq__(other)
+
+            def __hash__(self):
+                return hash(type(self).__name__)
+    H.__name__ = H.__qualname__ = "H_" + flavour
     return H
 
 
@@ -1149,10 +1202,10 @@ CONFIGS = _configs()
 _CLASSES = {}
 
 
-def config_class(spec):
-    c = _CLASSES.get(spec)
+def config_class(spec, flavour="plain"):
+    c = _CLASSES.get((spec, flavour))
     if c is None:
-        c = _CLASSES[spec] = make_class(build(spec, valid_default(spec)))
+        c = _CLASSES[(spec, flavour)] = make_class(build(spec, valid_default(spec)), flavour)
     return c
 
 
@@ -1167,15 +1220,14 @@ def bounds_tag(spec):
 # --------------------------------------------------------------------------
 
 class History:
-    def __init__(self, ctx, spec, rng, isect=False):
+    def __init__(self, ctx, spec, rng, isect=False, flavour="plain"):
         self.ctx = ctx
         self.isect = isect
+        self.flavour = flavour
         self.spec = spec
         self.kind = KIND_OF[spec[0]]
         self.rng = rng
-        cls = config_class(spec)
-        self.other = cls()
-        self.obj = cls()
+        cls = self.cls = config_class(spec, flavour)
         self.stale = []
         self.raw = lambda *a: LOG.append("raw")
         self.ops = []
@@ -1184,15 +1236,27 @@ class History:
             self.nested_spec = spec[1]
         if spec[0] == "Dict" and spec[2][0] in CONTAINER:
             self.nested_spec = spec[2]
-        # populate both objects with valid content (through assignment)
-        for o in (self.other, self.obj):
+        # `other`: a second owner of the same class, populated through assignment
+        self.other = cls()
+        self.populate(self.other)
+        # `obj`: half of the owners are built with the container as a constructor
+        # keyword; flavoured owners often start from the (empty) default, i.e. falsy
+        self.obj = None
+        start_default = flavour in ("len", "bool") and rng.random() < 0.4
+        if not start_default and rng.random() < 0.5:
             for _ in range(3):
-                v = gen(spec, rng, VALID)
                 try:
-                    setattr(o, NAME, v)
+                    self.obj = cls(**{NAME: gen(spec, rng, VALID)})
+                    ctx.count("built_with_keyword")
                     break
                 except TraitError:
                     pass
+        if self.obj is None:
+            self.obj = cls()
+            if not start_default:
+                self.populate(self.obj)
+        if flavour == "bool" and rng.random() < 0.5:
+            self.obj.__dict__[READY] = True
         obj = self.obj
         obj.on_trait_change(lambda: LOG.append("otc:xs"), NAME)
         obj.on_trait_change(lambda: LOG.append("otc:xs_items"), NAME + "_items")
@@ -1203,6 +1267,45 @@ class History:
         getattr(obj, NAME)
 
     # -- helpers ---------------------------------------------------------
+    def populate(self, o):
+        for _ in range(3):
+            try:
+                setattr(o, NAME, gen(self.spec, self.rng, VALID))
+                return
+            except TraitError:
+                pass
+
+    def perturb_owner(self):
+        """Owner-level events between operations (not operations on the value)."""
+        if self.flavour == "bool" and self.rng.random() < 0.08:
+            d = self.obj.__dict__
+            d[READY] = not d.get(READY, False)
+        elif self.flavour == "eq" and self.rng.random() < 0.3:
+            # make the second owner EQUAL to this one (same contents, other object)
+            try:
+                setattr(self.other, NAME, plain(getattr(self.obj, NAME)))
+            except TraitError:
+                pass
+
+    def owner_state(self, kind):
+        """Count and name the owner's state at the time of the operation."""
+        ctx, f = self.ctx, self.flavour
+        if f == "plain":
+            return "plain"
+        ctx.count("flavour_%s_ops" % f)
+        if f == "eq":
+            if self.obj == self.other and self.obj is not self.other:
+                ctx.count("equal_owner_ops")
+                return "eq-equal"
+            return "eq-distinct"
+        if not self.obj:
+            ctx.count("falsy_owner_ops")
+            ctx.count("falsy_%s_ops" % kind)
+            ctx.count("falsy_%s_owner_ops" % f)
+            return f + "-falsy"
+        ctx.count("truthy_flavoured_ops")
+        return f + "-truthy"
+
     def gen_op(self, tspec, target, top, borrow):
         kind = KIND_OF[tspec[0]]
         if kind == "set":
@@ -1234,7 +1337,8 @@ class History:
                 ns.append(self.raw)
 
     def fail(self, kind, opname, complaint, msg, extra):
-        w = {"config": spec_name(self.spec), "history": [short(show(o), 300) for o in self.ops],
+        w = {"config": spec_name(self.spec), "owner_flavour": self.flavour,
+             "owner_truth_value": bool(self.obj), "history": [short(show(o), 300) for o in self.ops],
              "value": short(plain(getattr(self.obj, NAME)), 400)}
         w.update(extra)
         self.ctx.violation("%s/%s/%s" % (kind, opname, complaint),
@@ -1242,12 +1346,13 @@ class History:
                                                         short(show(self.ops[-1]) if self.ops else None, 300), msg), w)
         return True
 
-    def walk(self, kind, opname):
+    def walk(self, kind, opname, obj=None):
         """Invariant walk of the CURRENT trait value.  True if violated."""
-        cur = getattr(self.obj, NAME)
+        obj = self.obj if obj is None else obj
+        cur = getattr(obj, NAME)
         Counter.n = 0
         try:
-            walk_container(self.spec, cur, self.obj, NAME)
+            walk_container(self.spec, cur, obj, NAME)
         except Walk as w:
             self.ctx.count("elements_walked", Counter.n)
             return self.fail(kind, opname, w.complaint, "at %s: %s" % (w.where, short(w.item)),
@@ -1259,17 +1364,21 @@ class History:
     def step(self, forced=None):
         """Generate, run and judge one operation.  True if a violation was reported."""
         ctx, rng, obj = self.ctx, self.rng, self.obj
+        if forced is None:
+            self.perturb_owner()
         cur = getattr(obj, NAME)
         r = rng.random()
         if forced is not None:
             where, target, tspec, op = "top", cur, self.spec, forced
-        elif r < 0.10:
+        elif r < 0.035:
+            return self.step_construct()
+        elif r < 0.125:
             return self.step_assign()
-        elif r < 0.17 and self.stale:
+        elif r < 0.19 and self.stale:
             where = "stale"
             target, tspec = rng.choice(self.stale), self.spec
             op = self.gen_op(tspec, target, False, self.borrow)
-        elif r < 0.45 and self.nested():
+        elif r < 0.46 and self.nested():
             where = "nested"
             target, tspec = rng.choice(self.nested()), self.nested_spec
             op = self.gen_op(tspec, target, False, None)
@@ -1286,6 +1395,7 @@ class History:
         self.ops.append((where,) + tuple(op))
         ctx.count(where + "_ops" if where != "top" else "top_ops")
         ctx.count(kind + "_ops")
+        ostate = self.owner_state(kind)
 
         # what built-in semantics would do
         model = plain(target)
@@ -1331,8 +1441,12 @@ class History:
         if changed or exc is not None or log:
             ctx.sig(self.kind, spec_name(self.spec[1]) if self.kind != "dict" else
                     spec_name(self.spec[1]) + ":" + spec_name(self.spec[2]), bounds_tag(self.spec),
-                    where, op[0], argclass, outcome, changed, model_exc is not None)
+                    where, op[0], argclass, outcome, changed, model_exc is not None, ostate.split("-")[-1])
 
+        if ostate.endswith("falsy") and outcome == "TraitError":
+            ctx.count("falsy_owner_rejections")
+        if ostate == "eq-equal" and any(isinstance(x, TRAIT_CONTAINERS) for _, x in cands):
+            ctx.count("equal_owner_foreign_args")
         # 1. invariant walk of the current value, after every operation
         if self.walk(kind, opname):
             return True
@@ -1403,6 +1517,7 @@ class History:
         route = rng.choice(["setattr", "setattr", "trait_set"])
         self.ops.append(("assign", route, how, v if how == "fresh" else plain(v)))
         ctx.count("assign_ops")
+        ostate = self.owner_state(self.kind)
         before = snap(cur)
         pre = plain(cur)
         del LOG[:]
@@ -1421,8 +1536,12 @@ class History:
             self.stale.append(cur)
             del self.stale[:-3]
         outcome = "ok" if exc is None else ("TraitError" if isinstance(exc, TraitError) else type(exc).__name__)
-        ctx.sig(self.kind, "assign", spec_name(self.spec), how, cls, outcome, route)
+        ctx.sig(self.kind, "assign", spec_name(self.spec), how, cls, outcome, route, ostate.split("-")[-1])
         kind = self.kind
+        if ostate.endswith("falsy") and outcome == "TraitError":
+            ctx.count("falsy_owner_rejections")
+        if ostate == "eq-equal" and isinstance(v, TRAIT_CONTAINERS):
+            ctx.count("equal_owner_foreign_args")
         if self.walk(kind, "assign"):
             return True
         if exc is not None:
@@ -1453,6 +1572,61 @@ class History:
                 return self.fail(kind, "assign", "wrong-exception-class",
                                  "raised %s instead of TraitError" % outcome, {"exception": short(exc, 300)})
         self.attach_raw()
+        return False
+
+
+    def step_construct(self):
+        """Whole-value assignment through the constructor: `Cls(xs=v)`.  The
+        new owner is judged on its own (it does not replace `obj`)."""
+        ctx, rng, kind = self.ctx, self.rng, self.kind
+        r = rng.random()
+        if r < 0.10:
+            v, how = getattr(self.other, NAME), "foreign-container"
+        elif r < 0.18:
+            v, how = getattr(self.obj, NAME), "foreign-container"
+        else:
+            v = gen(self.spec, rng, rng.choice([VALID, VALID, CONV, INVALID, INVALID]), borrow=self.borrow)
+            how = "fresh"
+        cls = classify(self.spec, v)
+        self.ops.append(("construct", how, v if how == "fresh" else plain(v)))
+        ctx.count("construct_ops")
+        if self.flavour in ("len", "bool"):
+            ctx.count("falsy_construct_ops")
+        del LOG[:]
+        new = None
+        try:
+            new = self.cls(**{NAME: v})
+            exc = None
+        except Exception as e:                     # noqa: BLE001
+            exc = e
+        log = LOG[:]
+        ctx.ev()
+        outcome = "ok" if exc is None else ("TraitError" if isinstance(exc, TraitError) else type(exc).__name__)
+        ctx.sig(kind, "construct", spec_name(self.spec), how, cls, outcome, self.flavour)
+        if new is not None:
+            if self.walk(kind, "construct", new):
+                return True
+            ctx.count("ops_succeeded")
+            if log:
+                ctx.count("notifications_seen", len(log))
+            if cls == CONV:
+                ctx.count("convertible_items_stored")
+        else:
+            ctx.count("rejections_checked")
+            ctx.count("construct_rejections")
+            if log:
+                return self.fail(kind, "construct", "notified-on-failure",
+                                 "raised %s yet notifications were delivered: %r" % (outcome, log[:6]),
+                                 {"exception": short(exc, 300), "notifications": log[:10]})
+        if cls == INVALID:
+            ctx.count("direction_checked")
+            if exc is None:
+                return self.fail(kind, "construct", "no-traiterror-for-invalid-item",
+                                 "an invalid whole value was accepted by the constructor",
+                                 {"assigned": short(plain(v), 300)})
+            if outcome != "TraitError":
+                return self.fail(kind, "construct", "wrong-exception-class",
+                                 "raised %s instead of TraitError" % outcome, {"exception": short(exc, 300)})
         return False
 
 
@@ -1522,8 +1696,8 @@ def run_grid(ctx, gi, spec):
         try:
             rng = ctx.rng("grid", gi, n)
             ops = list(grid_ops(rng, spec, n))
-            for op in ops:
-                h = History(ctx, spec, ctx.rng("grid", gi, n, "h"))
+            for k, op in enumerate(ops):
+                h = History(ctx, spec, ctx.rng("grid", gi, n, "h"), flavour=FLAVOURS[(gi + n + k) % len(FLAVOURS)])
                 items = [gen(spec[1], rng, VALID) for _ in range(n)]
                 try:
                     setattr(h.obj, NAME, items)
@@ -1590,11 +1764,12 @@ def run(ctx):
         if not ctx.mine(hno):
             continue
         spec = CONFIGS[hno % len(CONFIGS)]
-        if not ctx.begin("h:%d" % hno, {"config": spec_name(spec)}):
+        flavour = FLAVOURS[(hno // len(CONFIGS)) % len(FLAVOURS)]
+        if not ctx.begin("h:%d" % hno, {"config": spec_name(spec), "owner": flavour}):
             continue
         try:
             rng = ctx.rng("h", hno)
-            h = History(ctx, spec, rng)
+            h = History(ctx, spec, rng, flavour=flavour)
             h.attach_raw()
             if h.walk(h.kind, "initial"):
                 continue
@@ -1603,7 +1778,8 @@ def run(ctx):
                 if h.step():
                     break
             if hno // ctx.nshards < 3:
-                ctx.sample({"config": spec_name(spec), "history": [short(show(o), 200) for o in h.ops[:6]],
+                ctx.sample({"config": spec_name(spec), "owner": flavour,
+                            "history": [short(show(o), 200) for o in h.ops[:6]],
                             "final": short(plain(getattr(h.obj, NAME)), 200)})
         finally:
             ctx.end()
